@@ -334,7 +334,7 @@ def monitor_history(backend, ops, outs, dumps, mx):
                 last.pop(c[0], None)
         else:
             if kind == "update":
-                new = o[1]
+                news = [o[1]]
             else:
                 cands = [c for c in before if c[3] == o[1][0]]
                 if not cands:
@@ -342,25 +342,23 @@ def monitor_history(backend, ops, outs, dumps, mx):
                         fails.append(("C24/status-update-of-unknown-run", "%s: update_handler_status for an unknown "
                                       "run changed the store" % backend, k))
                     continue
-                if len(cands) > 1:
-                    # several handlers share the run id: which one is updated is not specified; identify it
-                    changed = [c for c in cands if apply_status(c, o[1]) in after]
-                    if not changed:
-                        fails.append(("C24/status-update-lost", "%s: update_handler_status %r updated none of %r"
-                                      % (backend, o[1], cands), k))
-                        continue
-                    new = apply_status(changed[0], o[1])
+                # several handlers may share the run id: which of them is updated is not specified
+                news = [apply_status(c, o[1]) for c in cands]
+            verdicts = []
+            for new in news:
+                stored = upsert(before, new)
+                t_last = dict(last)
+                t_last[new[0]] = k
+                if backend == "sqlite" or mx is None or not is_term(new):
+                    want = stored                              # nothing may be evicted
                 else:
-                    new = apply_status(cands[0], o[1])
-            stored = upsert(before, new)
-            last[new[0]] = k
-            if backend == "sqlite" or mx is None or not is_term(new):
-                want = stored                              # nothing may be evicted
-            else:
-                done = sorted((c for c in stored if is_term(c)), key=lambda c: last.get(c[0], -1))
-                evict = set(c[0] for c in (done[:-mx] if mx > 0 else done)) if len(done) > mx else set()
-                want = [c for c in stored if c[0] not in evict]
-            if sorted(after) != sorted(want):
+                    done = sorted((c for c in stored if is_term(c)), key=lambda c: t_last.get(c[0], -1))
+                    evict = set(c[0] for c in (done[:-mx] if mx > 0 else done)) if len(done) > mx else set()
+                    want = [c for c in stored if c[0] not in evict]
+                if sorted(after) == sorted(want):
+                    verdicts = None
+                    last = t_last
+                    break
                 lost_live = [c for c in want if c not in after and not is_term(c)]
                 lost_done = [c for c in want if c not in after and is_term(c)]
                 extra = [c for c in after if c not in want]
@@ -374,7 +372,10 @@ def monitor_history(backend, ops, outs, dumps, mx):
                     key, why = "C24/old-completion-kept", "completed handlers %r are beyond the %d most recent" % (extra, mx)
                 else:
                     key, why = "C24/upsert-not-exact", "store is %r, expected %r" % (sorted(after), sorted(want))
-                fails.append((key, "%s: after %r: %s" % (backend, o, why), k))
+                verdicts.append((key, "%s: after %r: %s (store before: %r)" % (backend, o, why, before), k))
+            if verdicts:
+                fails.append(verdicts[0])
+                last[news[0][0]] = k
             for c in before:
                 if c[0] not in [x[0] for x in after]:
                     last.pop(c[0], None)
